@@ -7,6 +7,7 @@ import (
 	"os"
 	"path/filepath"
 	"regexp"
+	"time"
 
 	"verifharness/rng"
 )
@@ -36,9 +37,12 @@ type Meta struct {
 	Streams   map[string]int `json:"streams_per_case"`
 	NonTriv   int            `json:"distinct_nontrivial_frames"`
 	seen      map[string]bool
-	Samples   []CaseJSON `json:"samples"`
-	Preface   string     `json:"preface_shard,omitempty"`
-	PrefaceN  int        `json:"preface_cases,omitempty"`
+	Samples   []CaseJSON  `json:"samples"`
+	E2E       []E2EResult `json:"e2e,omitempty"`
+	E2EPlayed int         `json:"e2e_played"`
+	E2EFailed int         `json:"e2e_failed"`
+	Preface   string      `json:"preface_shard,omitempty"`
+	PrefaceN  int         `json:"preface_cases,omitempty"`
 }
 
 func (m *Meta) account(name string, ops []Op, c *Case) {
@@ -147,6 +151,7 @@ func MainOpt(propWhy string, withPreface bool) {
 	out := flag.String("out", "", "output directory")
 	replay := flag.String("replay", "", "replay file (a CaseJSON)")
 	n := flag.Int("n", 0, "number of generated histories (0: tier default)")
+	e2e := flag.Int("e2e", 0, "play up to this many refusal-free histories through h2.Config.Proxy (TLS, ALPN h2, real goroutines)")
 	tables := flag.String("tables", "", "coq/g09/Tables.v generated from the tree under test (shape flags the mirrors follow)")
 	flag.Parse()
 	if *tables != "" {
@@ -234,6 +239,29 @@ func MainOpt(propWhy string, withPreface bool) {
 			panic(err)
 		}
 		m.Shards = append(m.Shards, name)
+	}
+	if *e2e > 0 {
+		env, err := newE2EEnv()
+		if err != nil {
+			panic(err)
+		}
+		for i, c := range cases {
+			if m.E2EPlayed >= *e2e {
+				break
+			}
+			if c.Dead || len(c.Steps) == 0 {
+				continue
+			}
+			r := env.PlayE2E(descr[i].Name, c, 3*time.Second)
+			m.E2EPlayed++
+			if !r.OK {
+				m.E2EFailed++
+				m.E2E = append(m.E2E, r)
+			} else if len(m.E2E) < 3 {
+				m.E2E = append(m.E2E, r)
+			}
+		}
+		env.ln.Close()
 	}
 	if withPreface {
 		if prefaceIn == nil {
